@@ -15,3 +15,13 @@ PROPS = {
         "assumptions": ["an update ignored by the unassigned-update guard is not an effective step (reading shared with C15)"],
     },
 }
+
+MANIFEST_TEXT = {
+    "C14": {
+        "text": "Theorems over the journal model for all stop-time lists, updates and histories: the update shape (marked-past prefix of the old list followed by exactly the update's stops), no drop before the first updated stop, the shape invariant over every reachable state of BuildJournal's loop by induction over the feed list (via the per-UID closed form of one feed), mark stability. The model is tied to journal.go by comparing every prefix of thousands of generated histories with the real BuildJournal, and the statement itself is checked on the implementation by an oracle.",
+        "note": "Trusted: Lean kernel (axioms propext, Classical.choice, Quot.sound), the correspondence harness and its generators. The Go journal code is modelled (hand-written) rather than verified; the model/implementation tie is differential.",
+        "technique": "Lean 4 proof by induction over feed histories + differential correspondence with journal.BuildJournal",
+    },
+}
+
+NOT_APPLICABLE = []
